@@ -36,6 +36,9 @@ func zzC03CEval(s *slip.Scope, form slip.Object) (out zzC03COut) {
 		}
 	}()
 	out.val = s.Eval(form, 0)
+	if vs, ok := out.val.(slip.Values); ok && 0 < len(vs) { // read-from-string: (values object position)
+		out.val = vs[0]
+	}
 	return
 }
 
